@@ -16,13 +16,36 @@ from .loader import Program, AnalysisError
 from . import report
 
 
-def _apply(prog_repo: str, rel: str, old: str, new: str, count: int = 1):
+def _region(src: str, old, new: str):
+    """old = (start marker, end marker): replace the text from the (unique) start marker up to the next end marker."""
+    if len(old) == 3:
+        # (context marker, start marker, end marker): the first start marker after the (unique) context marker
+        c, a, b = old
+        if src.count(c) != 1:
+            return None
+        i = src.find(a, src.index(c))
+        if i < 0:
+            return None
+    else:
+        a, b = old
+        if src.count(a) != 1:
+            return None
+        i = src.index(a)
+    j = src.find(b, i + len(a))
+    if j < 0:
+        return None
+    return src[:i] + new + src[j:]
+
+
+def _apply(prog_repo: str, rel: str, old, new: str, count: int = 1):
     path = os.path.join(prog_repo, rel)
     try:
         with open(path, encoding="utf-8") as fh:
             src = fh.read()
     except OSError:
         return None
+    if isinstance(old, tuple):
+        return _region(src, old, new)
     if src.count(old) < 1 or (count == 1 and src.count(old) != 1):
         return None
     return src.replace(old, new) if count != 1 else src.replace(old, new, 1)
@@ -39,6 +62,8 @@ def _run_variant(args):
         base = overlay.get(rel)
         if base is None:
             s = _apply(repo, rel, old, new, count=0 if every else 1)
+        elif isinstance(old, tuple):
+            s = _region(base, old, new)
         else:
             s = base.replace(old, new) if (every and old in base) else (base.replace(old, new, 1) if base.count(old) == 1 else None)
         if s is None:
